@@ -40,8 +40,24 @@ thread_local! {
     static ALLOC_ON: Cell<bool> = const { Cell::new(false) };
 }
 
+/// A single request above 4 GiB is runaway memory use (e.g. an encoder loop that never ends):
+/// stop before the machine runs out of memory. Reported as inconclusive, never as a violation.
+const RUNAWAY: usize = 4 << 30;
+
+#[cold]
+fn runaway() -> ! {
+    let msg = b"INCONCLUSIVE a single allocation request above 4 GiB (runaway memory use in the code under test; memory signal, not a violation)\n";
+    unsafe {
+        libc::write(1, msg.as_ptr() as *const libc::c_void, msg.len());
+        libc::_exit(2)
+    }
+}
+
 unsafe impl GlobalAlloc for CountingAlloc {
     unsafe fn alloc(&self, layout: Layout) -> *mut u8 {
+        if layout.size() > RUNAWAY {
+            runaway();
+        }
         let _ = ALLOC_ON.try_with(|on| {
             if on.get() {
                 let _ = ALLOC_BYTES.try_with(|b| b.set(b.get() + layout.size() as u64));
@@ -53,6 +69,9 @@ unsafe impl GlobalAlloc for CountingAlloc {
         System.dealloc(ptr, layout)
     }
     unsafe fn realloc(&self, ptr: *mut u8, layout: Layout, new_size: usize) -> *mut u8 {
+        if new_size > RUNAWAY {
+            runaway();
+        }
         let _ = ALLOC_ON.try_with(|on| {
             if on.get() && new_size > layout.size() {
                 let _ = ALLOC_BYTES
